@@ -111,6 +111,9 @@ type fsScenario struct {
 	Bound      *int
 	// RepeatFault: once the downstream has rejected a call it keeps rejecting (per channel) until the task is resumed
 	RepeatFault bool
+	// ConnFailAt: the n-th connectivity check of a new channel handler fails (the MQ is unreachable for a moment); the
+	// check runs under the channel manager's lock, so it is a scripted answer, not a scheduling point
+	ConnFailAt int
 	// MaxMsgKB: the batcher's size threshold in KB (0 = default, far above everything the scenarios send)
 	MaxMsgKB int
 	// Gen: member of a generated family (sharded by scenario, not by subtree)
@@ -287,6 +290,7 @@ type fsRun struct {
 	targetDown  map[string]bool // collections whose downstream lookup keeps failing (TargetFault)
 
 	created     map[int64]bool // Late collections that exist upstream by now
+	connChecks  int            // connectivity checks so far (all incarnations)
 	apiErrs     []string
 	frozenFn    func() bool // no more faults / crashes (final clean phase)
 	setup       bool        // the controller's own goroutine is creating the tasks: nothing parks
@@ -294,6 +298,7 @@ type fsRun struct {
 
 var errFsDown = errors.New("injected: downstream rejects the request")
 var errFsStore = errors.New("injected: metadata store rejects the write")
+var errFsConn = errors.New("injected: the source message queue refuses the connection")
 
 func (r *fsRun) ev(e fsEvent) {
 	e.N = len(r.events)
@@ -746,7 +751,18 @@ func (r *fsRun) newFullEntity(inc *fsInc, cdc *MetaCDC, uKey string) (*Replicate
 	if err != nil {
 		return nil, err
 	}
-	cm, err := cdcreader.NewReplicateChannelManager(inc.mq, &fakemq.Factory{MQ: inc.mq}, target, config.ReaderConfig{
+	fac := &fakemq.Factory{MQ: inc.mq}
+	if r.sc.ConnFailAt > 0 {
+		fac.AsConsumerErr = func(chs []string) error {
+			r.connChecks++
+			if r.connChecks == r.sc.ConnFailAt && !(r.frozenFn != nil && r.frozenFn()) {
+				r.ev(fsEvent{Inc: inc.n, Kind: "conn-fail", Key: strings.Join(chs, ",")})
+				return errFsConn
+			}
+			return nil
+		}
+	}
+	cm, err := cdcreader.NewReplicateChannelManager(inc.mq, fac, target, config.ReaderConfig{
 		MessageBufferSize: cfg.SourceConfig.ReadChanLen, TTInterval: cfg.SourceConfig.TimeTickInterval, Retry: cfg.Retry,
 		SourceChannelNum: cfg.SourceConfig.ChannelNum, TargetChannelNum: 2, ReplicateID: uKey,
 	}, mo, rm, func(string, *msgstream.MsgPack) {}, "milvus")
